@@ -151,10 +151,41 @@ bool Relay::filter_answer(Dgram &d)
 			else S->count("relay.ref_reencode_nofit");
 		}
 	}
-	bool need_rebuild = case_a != "keep" || shuffle || reencode || ttl_rewrite || hibit_a == "strip" || plus_a == "mangle" || under_a == "mangle";
+	bool need_rebuild = case_a != "keep" || shuffle || reencode || ttl_rewrite || hibit_a != "keep" || plus_a == "mangle" || under_a == "mangle";
 	if (need_rebuild) {
 		DnsMsg m;
 		if (dns_parse_strict(d.data, m).empty()) {
+			if (hibit_a == "reject" || hibit_a == "remove") {
+				// the other two readings of "stripping or rejecting bytes >= 0x80" on the answer side: an answer that contains such a
+				// byte (in a name of its data, or in TXT text when the relay treats that as text) is turned into SERVFAIL, or the
+				// bytes are taken out (labels and character strings get shorter)
+				bool has = false;
+				for (auto &r : m.an) {
+					if (r.type == QT_CNAME || r.type == QT_MX || r.type == QT_SRV || r.type == QT_NS) for (auto &l : r.rname.labels) for (auto c : l) if ((uint8_t)c >= 0x80) has = true;
+					if (text_a && r.type == QT_TXT) { size_t o = 0; while (o < r.rdata.size()) { size_t l = r.rdata[o]; o++; for (size_t i = 0; i < l && o + i < r.rdata.size(); i++) if (r.rdata[o + i] >= 0x80) has = true; o += l; } }
+				}
+				if (has && hibit_a == "reject") {
+					m.an.clear(); m.ns.clear(); m.ar.clear(); m.rcode = 2;
+					d.data = dns_rebuild(m); S->count("relay.hibit_a_rejected");
+					return true;
+				}
+				if (has) {
+					for (auto &r : m.an) {
+						if (r.type == QT_CNAME || r.type == QT_MX || r.type == QT_SRV || r.type == QT_NS) {
+							std::vector<Bytes> nl;
+							for (auto &l : r.rname.labels) { Bytes x; for (auto c : l) if ((uint8_t)c < 0x80) x.push_back(c); if (!x.empty()) nl.push_back(x); }
+							if (nl.empty()) nl.push_back(Bytes(1, '-'));
+							r.rname.labels = nl;
+						}
+						if (text_a && r.type == QT_TXT) {
+							Bytes nd; size_t o = 0;
+							while (o < r.rdata.size()) { size_t l = r.rdata[o]; o++; Bytes x; for (size_t i = 0; i < l && o + i < r.rdata.size(); i++) if (r.rdata[o + i] < 0x80) x.push_back(r.rdata[o + i]); o += l; nd.push_back((uint8_t)x.size()); nd.insert(nd.end(), x.begin(), x.end()); }
+							r.rdata = nd;
+						}
+					}
+					S->count("relay.hibit_a_removed");
+				}
+			}
 			uint64_t key = splitmix64(S->seed ^ 0xa115) ^ (na * 0x9e3779b97f4a7c15ull);
 			uint64_t ctr = 0;
 			auto fix = [&](DnsName &n) {
@@ -246,7 +277,7 @@ J gen_relay(Rng &r, const std::string &force_up)
 		if (r.chance(0.35)) c.set("case_q", cases[r.range(0, 3)]);
 		if (r.chance(0.3)) c.set("case_a", cases[r.range(0, 3)]);
 		if (r.chance(0.4)) c.set("hibit", hib[r.range(0, 2)]);
-		if (r.chance(0.25)) c.set("hibit_a", "strip");
+		if (r.chance(0.25)) { static const char *ha[] = {"strip", "strip", "remove", "reject"}; c.set("hibit_a", ha[r.range(0, 3)]); }
 		if (r.chance(0.2)) c.set("plus_a", "mangle");
 		if (r.chance(0.5)) c.set("text_a", true);       // the answer-side transformations also apply to the text of TXT records
 		if (r.chance(0.15)) c.set("under_a", "mangle");
